@@ -84,21 +84,26 @@ CLAIMS = {
         design_ref='5/C06',
         note='No theorem yet states c_reuse/strip_forks invariance; dataset mode 2 (random picking) and sd>0 capture are outside the claim.'),
     'C07': dict(
-        technique='differential execution with permuted schedules (op order inside levels, mock-GPU thread order) + independent schedule checker (no property-specific theorem yet)',
-        text='Proof (partial): decided by executing LogicSim/WaveSim with the rows of every level permuted and WaveSimCuda with a permuted '
-             'thread order of the mock launcher, comparing all signal memory (scratch slot excluded), results and accumulated activity, '
-             'plus an independent checker of the published schedule (operands produced in earlier levels, released memory not reused '
-             'inside a level). The allocator part that makes "released memory is not handed out in the same level" true is proved (C08).',
+        technique='Coq proofs: greedy levelisation yields an independent partition for every SSA-topological op list; any order inside levels gives the same signals; certificate evaluation; permuted-schedule execution',
+        text='Proof (partial). Proved over the transcription of the scheduler: for EVERY op list in single-assignment topological form the '
+             'greedy levelisation yields levels in which no op reads or overwrites an output of its own level (scratch slot excepted); for '
+             'every such partition, ANY permutation inside the levels gives the same value of every signal except scratch; the mock GPU '
+             'launch runs every in-range thread exactly once. Together with the C08 theorems (released memory is never handed out before '
+             'the end of the level: frees happen after the level\'s allocations in the transcription, and map_check_sound) this covers '
+             'the statement at op granularity. Tied to the code by SimOps correspondence, by evaluating the certificates on every '
+             'generated circuit, and by executing LogicSim/WaveSim/WaveSimCuda with permuted op rows / thread orders.',
         design_ref='5/C07',
-        note='levels_valid / perm_level / interleave theorems over Model/SimOps.v are not proved yet; the mock launcher cannot exhibit sub-kernel interleavings.'),
+        note='Not a theorem: that SimOps.build always emits an SSA-topological op list (certificate-checked per circuit); interleavings below kernel-instance granularity.'),
     'C08': dict(
         technique='Coq proof of allocator invariants over all alloc/free histories (refinement to a block list); step-by-step correspondence; overlap oracle for the map',
         text='Proof (allocator full, map partial). For ALL histories of well-formed use the Gallina transcription of sim.Heap keeps its '
              'regions tiling the managed range with free regions coalesced, never returns a region overlapping a live one, keeps live '
              'regions unchanged, reports the true high-water mark, and frees commute (so Python\'s set iteration order is irrelevant). '
              'The transcription is compared with sim.Heap after EVERY step of random histories (full tables). The SimOps map (live ranges, '
-             'aliasing, total size) is modelled (Model/SimOps.v uses the Heap model) and tied by correspondence; absence of overlap is '
-             'checked by an independent liveness checker on the implementation\'s tables -- not yet a theorem.',
+             'aliasing, total size) is modelled (Model/SimOps.v uses the Heap model) and tied by correspondence; a checkable ownership '
+             'certificate is proved sound (a map that passes it makes flat-memory execution equal line-level execution at every observed '
+             'slot) and evaluated on the model\'s result for every generated circuit; an independent liveness checker runs on the '
+             'implementation\'s tables. That build() always passes the certificate is not yet a theorem.',
         design_ref='5/C08',
         note='Modelled not verified: sim.Heap and SimOps.__init__ are hand transcriptions.'),
     'C13': dict(
@@ -159,6 +164,28 @@ CLAIMS = {
              'finding D7). Domain: first point of a routing statement fully specified; coordinates are unsigned in text (grammar), any integer in the '
              'direct-object stream; ROW theorems require step >= 0 and one count = 1 (C20_row_negative_step_refuted). Not covered: pins with several '
              'PORT/LAYER groups, a comment directly after "via ORIENT " with a single blank, via names that look like an orientation.'),
+    'C15': dict(
+        technique='Coq proofs (induction over any number of signals/patterns/leading axes; Z.testbit for the dtypes) over a Gallina transcription '
+                  'of the encoding functions + value tables regenerated by evaluating the code; exact correspondence; generator-owned oracle',
+        text='Proof (full for the modelled functions). Proved for ALL inputs of Model/Encodings.v: bp_to_mv(mv_to_bp(m)) = m with the pattern axis '
+             'padded to a multiple of 8 by ZERO for any matrix of codes, any pattern count and any number of leading axes (induction), 1-D arrays '
+             'as one pattern per signal, the converse mv_to_bp(bp_to_mv(b)) = b, and the lane/plane layout (plane k = bit k, pattern j = bit j mod 8 '
+             'of byte j/8, padding lanes 0); mvarray puts p >= 2 pattern strings on the last axis and signals on axis -2 with entry [i][j] = '
+             'interpret(pattern_j[i]), one pattern gives a 1-D array, one-character strings are scalars; the eight values render to 0X-1PRFN and '
+             'parse back, every documented alias parses to its value, every other code point (unbounded) is UNKNOWN, string -> array -> string and '
+             'array -> string -> array round trips; unpackbits = two\'s complement bits (Z.testbit), packbits(unpackbits x) = x for every value of '
+             'int8..int64/uint8..uint64, unpackbits(packbits l) = l for bit lists of the dtype\'s width, sign-/zero-extension and truncation of '
+             'other widths; _pop_count_lut[b] = number of one bits for all 256 bytes and popcount = sum. The character/scalar table, the rendering '
+             'table, the documented aliases (docstrings) and _pop_count_lut are regenerated from the working tree on every run and the theorems '
+             'are re-proved about them.',
+        design_ref='5/C15',
+        note='Modelled not verified: the transcription of interpret/mvarray/mv_str/mv_to_bp/bp_to_mv/unpackbits/packbits/popcount and the small '
+             'models of the numpy primitives they call (packbits/unpackbits with bitorder=little and axis, pad edge/constant, view on a '
+             'little-endian host, swapaxes, choose, np.array of nested lists) are tied to the code by exact comparison on generated inputs '
+             '(1-D..5-D, pattern counts not multiples of 8, empty axes, C/Fortran/strided layouts, all integer dtypes with boundary values, '
+             'alias/junk/unicode strings, nested lists, booleans, None). Observed and outside the stated domain: mv_str raises TypeError for '
+             'arrays with more than two axes; unpackbits raises for 0-d and for non-contiguous arrays of multi-byte dtypes (ndarray.view); '
+             'p >= 2 one-character pattern strings form one vector (documented character rule).'),
 }
 
 NOT_YET = 'check not built yet in this session (see DESIGN.md section 8 build order); no claim is made'
